@@ -1,4 +1,6 @@
 SPECIFICATION Spec
+CONSTANT SelKinds = {"string", "boolean", "integer", "combo", "array", "feature"}
+CONSTANT Families = {"prec", "builtin", "bt", "prefix", "machine", "module", "invalid"}
 INVARIANT StoreValid
 INVARIANT RefinesPrecedence
 INVARIANT RuleBookIsTight
